@@ -30,7 +30,7 @@ CHECKS['C16'] = dict(
    note='Reference tokenizer written from README + pinned lexer tests; typographic quotes and non-ASCII whitespace are undocumented (only generic obligations checked there); strings longer than the bound not covered.',
    ref='DESIGN.md §4 C16')
 CHECKS['C02'] = dict(
-   technique='explicit-state search over {rnext,next} on the real interpreter from the end of every forward run, projected machine dump (reverse log included) as state key, run to closure and compared with the recorded forward trace',
+   technique='explicit-state search over {rnext,next} on the real interpreter from the end of every forward run, projected machine dump (reverse log included) as state key, run to closure and compared with the recorded forward trace; programs start from the fresh interpreter and from states left by histories of failing sources',
    text='For every program of the control-flow grammar and of a repertoire grammar (stack shufflers, builders, foreach over vectors/maps, locals, variables) up to 3 (quick) / 4 (thorough) nodes plus ~100 hand-written repertoire programs (late binding, binary reads, recursion, re-initialised locals, meta blocks) the forward history S0..Sn is recorded and the state graph under rnext/next is explored to closure; every reached state must equal the recorded S_i. Because the key contains the reverse log, closure at n+1 states covers all rewind/replay interleavings of any length. Opcode and reverse-step kinds exercised are listed; a missing one is a machinery error.',
    note='Machine state = verif_dump minus instruction meter, printed output and code (late-binding cache). A failing step is not part of the stepped history; histories capped at 80 steps.',
    ref='DESIGN.md §4 C02')
@@ -45,7 +45,7 @@ CHECKS['C07'] = dict(
    note='Records above 4 fields not covered; unsigned 128-bit fields excluded (pinned overflow); NaN payloads not compared.',
    ref='DESIGN.md §4 C07')
 CHECKS['C17'] = dict(
-   technique='exhaustive product of failing-program templates x all whitespace/CRLF/tab/multibyte/comment prefixes up to a length bound, oracle computed from the generated text',
+   technique='exhaustive product of failing-program templates x all whitespace/CRLF/tab/multibyte/comment prefixes up to a length bound, x 3 ways of submitting the sources, oracle computed from the generated text; two failures inside one single-stepped program',
    text='129 failing-program templates (unknown word / run-time failure at top level, inside definitions, loops, meta blocks, injected text, included files, call depth 1-3, later sources on the same interpreter) x every layout string of <= 5 (quick) / 6 (thorough) atoms over {space, tab, LF, CRLF, multibyte word, line comment}; reported source name, token byte range, line, column (characters), quoted line and pretty_error text must equal the values computed from the text.',
    note='Culprit tokens spanning lines, lone CR, and lexer parse-error sub-ranges are not covered.',
    ref='DESIGN.md §4 C17')
@@ -80,12 +80,12 @@ CHECKS['C08'] = dict(
    note='External/non-deterministic words (random, random-bits, read-all, write-all, exec-piped, include, require) are never run; allocation-size positions are capped at 2^16 ("modest allocation sizes"); values outside the alphabet and longer token strings not covered.',
    ref='DESIGN.md §4 C08')
 CHECKS['C14'] = dict(
-   technique='exhaustive enumeration of every limit value against the recorded unconstrained trace of each program, stepped on the real interpreter with a per-step invariant monitor (explicit per-step invariant checking)',
+   technique='exhaustive enumeration of every limit value against the recorded unconstrained trace of each program, stepped on the real interpreter with a per-step invariant monitor (explicit per-step invariant checking); limit sequences between evaluations; host-level definitions under every heap headroom',
    text='47 growth-path programs (pushes, unbox, collect, loops, recursion, meta blocks, var/let chains, foreach, late binding) and every program of the control-flow and repertoire grammars up to 3 (quick) / 4 (thorough) nodes: for EVERY instruction limit 0..=needed+1, EVERY stack limit 0..=deepest+2 and EVERY heap limit h0..=largest+1 the program is compiled and stepped; after every step meter <= N, stack <= S, heap <= H; insufficient limits must fail with the limit error no later than the first exceeding step, sufficient ones must not change the outcome; after lifting the limit run() resumes to the unconstrained result (N) / probes evaluate normally (S, H); same limits under a single eval. Also all sequences of 3 evaluations with limits changed in between, limits set below current usage, meta blocks on a non-empty stack (measured peaks), and the instruction budget over all sequences of 4 sources counted by printed markers.',
    note='Needed instruction count is measured, not assumed. Stack limits within 1 of the deepest observed depth may go either way (intra-instruction peaks).',
    ref='DESIGN.md §4 C14')
 CHECKS['C15'] = dict(
-   technique='exhaustive differential enumeration: every corpus program run in 3 drive modes x recording on/off on the real interpreter, outcomes compared',
+   technique='exhaustive differential enumeration: every corpus program, and every dictionary word from idle non-fresh interpreters under stack limits with 0/1/2 free places, run in 3 drive modes x recording on/off on the real interpreter, outcomes compared',
    text='Every program of the control-flow grammar and the repertoire grammar up to 4 (quick) / 5 (thorough) nodes plus ~100 repertoire templates with a binary input, each run six ways ({eval, compile+run, compile+next*} x reverse recording off/on): result or error kind, output, visible stack, heap cells and (for successful runs) call/loop/builder stacks must agree.',
    note='Programs cut by the instruction limit (1500) are compared by result class only.',
    ref='DESIGN.md §4 C15')
@@ -95,7 +95,7 @@ CHECKS['C11'] = dict(
    note='Value of e obtained by ordinary evaluation (eager nested blocks flattened: they share the parent meta stack, pinned by the suite). User-defined immediate words are outside the property.',
    ref='DESIGN.md §4 C11')
 CHECKS['C03'] = dict(
-   technique='stateless exhaustive search over operation histories on up to three interpreter copies (eval / clone / step / reverse-step), every history rebuilt by replay; isolation invariant on every other copy and differential against a clone-free fresh replay after every operation',
+   technique='stateless exhaustive search over operation histories on up to three interpreter copies (eval / clone / step / reverse-step), every history rebuilt by replay; isolation invariant on every other copy and differential against a clone-free fresh replay after every operation, observed through the complete dump and (second leg) through the public observers',
    text='Every history that starts with 0..2 share-building sources on the original and a clone, followed by every sequence of 3 (quick) / 4 (thorough) operations over a 43 (quick) / 61 (thorough) operation alphabet: 22 share-then-mutate sources (bit-string append/invert/and on shared buffers, vector push, map insert/remove, definitions and redefinitions, late binding, variables, emit with output interception, printing, binary-input reads, the 2D canvas host object) on copies A/B/C, clone B->C and A->C, compile + 2 steps, rnext, run. After every operation the complete dump, output and host-object probe of every other copy must be unchanged, and the operated copy must equal a freshly booted interpreter fed the same lineage without clones. A process-level leg drives the real REPL: setup line, /snapshot, two mutating lines, /rollback, probes — compared with the run without the snapshot section.',
    note='Observable state of a copy = complete verif_dump + host-object probe. The REPL snapshot bookkeeping itself is not driven. Host objects shared by clone are an open known finding.',
    ref='DESIGN.md §4 C03')
